@@ -1,0 +1,26 @@
+//go:build verif
+
+package pdf
+
+import "seehuhn.de/go/pdf/internal/filter/ccittfax"
+
+// Only compiled with the build tag "verif": access for the verification
+// harness (translator package, second batch), no behaviour of its own.
+
+// VerifTrCCITTParams mirrors ccittfax.Params.
+type VerifTrCCITTParams = ccittfax.Params
+
+func VerifTrCCITTBufferBytes(p *VerifTrCCITTParams) int { return ccittfax.BufferBytes(p) }
+func VerifTrCCITTWhiteBit(p VerifTrCCITTParams) byte    { return ccittfax.VerifTrWhiteBit(p) }
+func VerifTrCCITTGetPixel(p VerifTrCCITTParams, lineData []byte, x int) byte {
+	return ccittfax.VerifTrGetPixel(p, lineData, x)
+}
+func VerifTrCCITTEndOfRun(p VerifTrCCITTParams, lineData []byte, startX int, runBit byte) int {
+	return ccittfax.VerifTrEndOfRun(p, lineData, startX, runBit)
+}
+
+// VerifTrCheckXRefStreamDict reports whether checkXRefStreamDict accepts the dictionary.
+func VerifTrCheckXRefStreamDict(dict Dict, rawLen int64) error {
+	_, _, err := checkXRefStreamDict(dict, rawLen)
+	return err
+}
